@@ -7,6 +7,9 @@ from propconf import PROPS
 from manifest_meta import META, NOT_APPLICABLE, HOOK_COMMITS
 
 all_ids = [json.loads(l)["id"] for l in open(os.path.join(ROOT, "properties.jsonl"))]
+# only properties listed in tools/ready.txt are claimed (the lead adds an id once its check is green and committed)
+READY = set(open(os.path.join(ROOT, "tools", "ready.txt")).read().split())
+PROPS = {k: v for k, v in PROPS.items() if k in READY}
 checks = []
 for pid in all_ids:
     if pid not in PROPS:
